@@ -468,41 +468,7 @@ def r187(P, rep):
     rep.rule('R18.7', 'gen_expr and gen_stmt emit `.loc <file_no of the node\'s token> <its line_no>` before any other output; '
              'codegen emits one `.file <file_no> "<name>"` per input file before any code; tokenize_file registers every file under its own number', floor=6)
     u = P.unit(CG)
-
-    class _Stop(Exception):
-        pass
-    for fn in ('gen_expr', 'gen_stmt'):
-        W = '%s:%d' % (CG, u.fn(fn).line)
-        base = '%s:%s' % (CG, fn)
-
-        def m_println(it, ctx, call, args):
-            raise NoReturn('@emit', args, call.line)
-        it = Interp(P, u, {'models': {'println': m_println}, 'opaque': ['count']})
-        try:
-            paths = it.explore(fn, lambda ctx: [Obj('Node', lazy=True, label='node')], max_paths=3000)
-        except (Unsupported, AnalysisBroken) as e:
-            rep.undecided('R18.7', base + ':shape', 'cannot interpret the head of %s: %s' % (fn, e), where=W)
-            continue
-        n = 0
-        for ctx, out in paths:
-            if out[0] != 'noreturn' or out[1] != '@emit':
-                continue     # no output at all on this path, or a diagnostic
-            n += 1
-            a = out[2]
-            tmpl = a[0] if a and isinstance(a[0], str) else None
-            words = tmpl.split() if tmpl else []
-            facts = {'path': ctx.trail[-6:], 'first_output': repr(a)}
-            if not words or words[0] != '.loc':
-                rep.ob('R18.7', base + ':loc-first', False,
-                       '%s can emit `%s` before any .loc directive: the instructions of this node are attributed to the line of the previous node' % (fn, (tmpl or repr(a)).strip()), where='%s:%d' % (CG, out[3]), facts=facts)
-                continue
-            rep.ob('R18.7', base + ':loc-first', True, '', where=W)
-            names = [getattr(x, 'name', repr(x)) for x in a[1:]]
-            ok = names == ['node.tok.file.file_no', 'node.tok.line_no'] and words[1:] == ['%d', '%d']
-            rep.ob('R18.7', base + ':loc-operands', ok,
-                   '%s emits `%s` with (%s): expected the file number of the node\'s token and its line number, in this order' % (fn, tmpl.strip(), ', '.join(names)), where='%s:%d' % (CG, out[3]), facts=facts)
-        if n == 0:
-            rep.undecided('R18.7', base + ':no-output', '%s never reaches println' % fn, where=W)
+    _r187_generators(P, u, rep)
     # codegen: .file per input file
     fn = 'codegen'
     W = '%s:%d' % (CG, u.fn(fn).line)
@@ -512,10 +478,15 @@ def r187(P, rep):
         from .interp import ElemPlace
         return _Ref(ElemPlace(Arr([Obj('File', lazy=True, label='fileA'), Obj('File', lazy=True, label='fileB'), 0], label='files'), 0))
 
-    def m_println2(it, ctx, call, args):
-        ctx.emit('emit', args, call.line)
-        return None
-    it = Interp(P, u, {'cut': {'get_input_files': cut_files}, 'models': {'println': m_println2},
+    def m_println2(nfixed):
+        def h(it, ctx, call, args):
+            ctx.emit('emit', list(args[max(nfixed - 1, 0):]), call.line)
+            return None
+        return h
+    printers = _printers(u, _callgraph(u))      # println today: found by what it does (variadic, built on vfprintf), not by name
+    if not printers:
+        raise AnalysisBroken('codegen.c has no variadic printing function built on vfprintf (println vanished)')
+    it = Interp(P, u, {'cut': {'get_input_files': cut_files}, 'models': {p: m_println2(k) for p, k in printers.items()},
                        'opaque': ['assign_lvar_offsets', 'emit_data', 'emit_text']})
     try:
         paths = it.explore(fn, lambda ctx: [Obj('Obj', lazy=True, label='prog'), Sym('out', 'FILE *')])
@@ -577,3 +548,261 @@ def r187(P, rep):
                'the first file gets number %r and the file table is %r with counter %r afterwards (expected number 1, table [file, NULL], counter 1): .file entries and .loc file numbers do not match' % (no, getattr(arr, 'elems', arr), cnt), where=W, facts={'path': ctx.trail})
     if n == 0 and paths:
         rep.undecided('R18.7', '%s:%s:no-path' % (T, fn), 'no path of tokenize_file creates a file', where=W)
+
+
+# ------------------------------------------------------------------------------ R18.7: the generators
+GEN = ('gen_expr', 'gen_stmt')
+# stdio output primitives: index of the template/string argument (None: no template), index of the stream argument
+RAW_OUT = {'fprintf': (1, 0), 'vfprintf': (1, 0), 'fputs': (0, 1), 'fputc': (None, 1), 'putc': (None, 1), 'fwrite': (None, 3),
+           'printf': (0, None), 'vprintf': (0, None), 'puts': (0, None), 'putchar': (None, None)}
+MAX_PATHS = 3000        # paths per generator
+MAX_BAD = 24            # stop exploring once this many paths without a leading .loc are on record
+BUDGET_S = 12.0         # wall clock per generator
+
+
+def _callgraph(u):
+    return {fn: set(c.callee() for c in fd.walk() if c.kind == 'CallExpr' and c.callee()) for fn, fd in u.functions.items()}
+
+
+def _reaching(calls, targets):
+    """functions of the unit from which a target is reachable (targets included)"""
+    r = set(targets)
+    changed = True
+    while changed:
+        changed = False
+        for f, cs in calls.items():
+            if f not in r and cs & r:
+                r.add(f)
+                changed = True
+    return r
+
+
+def _printers(u, calls):
+    """name -> number of named parameters, for the variadic functions of the unit that hand their arguments to v(f)printf
+    (println today; found by what they do, not by name)"""
+    out = {}
+    for fn, fd in u.functions.items():
+        if '...' in (fd.type or '') and calls.get(fn, set()) & {'vfprintf', 'vprintf'}:
+            out[fn] = len(u.params(fn))
+    return out
+
+
+def _scalar(t):
+    t = (t or '').replace('const ', '').replace('volatile ', '').strip()
+    return t.endswith('*') or t in ('int', 'long', 'unsigned int', 'unsigned long', 'short', 'char', 'bool', '_Bool', 'unsigned char',
+                                   'unsigned short', 'long long', 'unsigned long long', 'size_t', 'int64_t', 'uint64_t', 'int32_t', 'uint32_t')
+
+
+def _written_ids(u):
+    """ids of the variables some function of the unit assigns, increments or takes the address of"""
+    ids = set()
+    for fd in u.functions.values():
+        for n in fd.walk():
+            tgt = None
+            if n.kind == 'BinaryOperator' and n.opcode == '=':
+                tgt = n.inner[0]
+            elif n.kind == 'CompoundAssignOperator':
+                tgt = n.inner[0]
+            elif n.kind == 'UnaryOperator' and n.opcode in ('++', '--', '&'):
+                tgt = n.inner[0]
+            if tgt is not None:
+                t = tgt.strip()
+                if t.kind == 'DeclRefExpr' and t.ref_id:
+                    ids.add(t.ref_id)
+    return ids
+
+
+def _state_vars(u):
+    """remembered state a generator may consult: function-scope statics and initialised file-scope variables of scalar type that
+    the unit writes. A generator is entered in ANY such state, so they start as symbols, not as their initialisers."""
+    wr = _written_ids(u)
+    statics, globs = [], []
+    for fn, fd in u.functions.items():
+        for n in fd.walk():
+            if n.kind == 'VarDecl' and n.d.get('storageClass') == 'static' and _scalar(n.dtype or n.type) and n.id in wr:
+                statics.append((n.id, 'state:%s.%s' % (fn, n.name), n.dtype or n.type))
+    for name, g in u.globals.items():
+        if 'init' in g.d and _scalar(g.dtype or g.type) and g.id in wr:
+            globs.append((name, 'state:%s' % name, g.dtype or g.type))
+    return statics, globs
+
+
+def _explore_budget(it, u, fname, make_args, is_bad):
+    """Interp.explore with three caps: number of paths, number of `bad` paths on record, wall clock. -> (paths, reason the exploration is partial | None)"""
+    import time
+    from .interp import Ctx, NeedChoice, Infeasible
+    fn = u.functions[fname]
+    out, stack, nbad, t0 = [], [[]], 0, time.time()
+    while stack:
+        dec = stack.pop()
+        ctx = Ctx(dec)
+        it.ctx = ctx
+        try:
+            args = make_args(ctx)
+            v = it.call_fn(u, fn, args)
+            out.append((ctx, ('ret', v)))
+        except NeedChoice as e:
+            for a in range(e.n - 1, -1, -1):
+                stack.append(dec + [a])
+        except Infeasible:
+            pass
+        except NoReturn as e:
+            o = ('noreturn', e.fn, e.args_, e.line)
+            out.append((ctx, o))
+            if is_bad(o):
+                nbad += 1
+        if nbad >= MAX_BAD and stack:
+            return out, 'stopped after %d paths whose first output is not a .loc directive' % nbad
+        if len(out) + len(stack) > MAX_PATHS:
+            return out, 'more than %d paths' % MAX_PATHS
+        if time.time() - t0 > BUDGET_S and stack:
+            return out, 'time budget of %d s used up after %d paths' % (BUDGET_S, len(out))
+    return out, None
+
+
+def _leaf_names(key, acc):
+    if isinstance(key, tuple):
+        if len(key) == 2 and key[0] == 'sym' and isinstance(key[1], str):
+            acc.add(key[1])
+        else:
+            for k in key:
+                _leaf_names(k, acc)
+    return acc
+
+
+def _position_pins(it, ctx, ptr_state):
+    """fields of the node's own token that this path knows to be EQUAL to something (a remembered value, a constant):
+    {'line_no': other, 'file.file_no': other, 'file': other, ...}"""
+    pins = {}
+    eqs = []
+    for key, val in ctx.facts.items():
+        if isinstance(key, tuple) and len(key) == 4 and key[0] == 'term' and key[1] in ('==', '!=') and bool(val) == (key[1] == '=='):
+            eqs.append((key[2], key[3]))
+            eqs.append((key[3], key[2]))
+    for a, b in eqs:
+        if isinstance(a, tuple) and len(a) == 2 and a[0] in ('sym', 'obj') and str(a[1]).startswith('node.tok.'):
+            other = sorted(_leaf_names(b, set())) if isinstance(b, tuple) else [repr(b)]
+            pins[a[1][len('node.tok.'):]] = ', '.join(other) or repr(b)
+    # a token field that is a pointer and NULL on this path, compared with a remembered pointer
+    root = getattr(ctx, 'c18_root', None)
+    tok = _settle_obj(it, root.fields.get('tok')) if isinstance(root, Obj) else None
+    if isinstance(tok, Obj):
+        for fld, v in tok.fields.items():
+            v = _settle_obj(it, v)
+            if isinstance(v, int) and not isinstance(v, bool) and v == 0:
+                for a, b in eqs:
+                    if a == 0 and isinstance(b, tuple) and len(b) == 2 and b[0] == 'sym' and b[1] in ptr_state:
+                        pins[fld] = b[1]
+    return pins
+
+
+def _r187_generators(P, u, rep):
+    """every path of gen_expr/gen_stmt from entry to the FIRST line it writes for its own node: that line is `.loc` with the file number and
+    line of the node's own token. Helpers are followed (whoever prints, and with whatever parameter names); calls that generate ANOTHER node
+    are cut by contract; the generator is entered in any remembered state."""
+    calls = _callgraph(u)
+    REC = _reaching(calls, set(GEN))
+    printers = _printers(u, calls)
+    if not printers:
+        raise AnalysisBroken('codegen.c has no variadic printing function built on vfprintf (println vanished)')
+    statics, globs = _state_vars(u)
+    ptr_state = set(label for (_, label, t) in statics + globs if '*' in (t or ''))
+
+    def m_printer(nfixed):
+        def h(it, ctx, call, args):
+            raise NoReturn('@emit', list(args[max(nfixed - 1, 0):]), call.line)
+        return h
+
+    def m_raw(name):
+        ti, si = RAW_OUT[name]
+        def h(it, ctx, call, args):
+            if si is not None and si < len(args) and 'stderr' in str(getattr(args[si], 'name', '')):
+                return None         # a diagnostic, not output
+            a = ([args[ti]] + list(args[ti + 1:] if name.endswith('printf') else [])) if (ti is not None and ti < len(args)) else [None]
+            raise NoReturn('@emit', a, call.line)
+        return h
+
+    def h_rec(it, ctx, call, args):
+        """a function from which gen_expr/gen_stmt are reachable: followed while it works on the SAME node, cut when it generates another one"""
+        name = call.callee()
+        root = getattr(ctx, 'c18_root', None)
+        if root is not None and any(a is root for a in args) and ctx.rec.get(name, 0) == 0:
+            u2, fd = it.find_def(name)
+            if fd is not None:
+                return it.call_fn(u2, fd, args)
+        t = call.dtype or call.type
+        r = None if t == 'void' else it.lazy_value(t, ctx.fresh(name))
+        ctx.emit('call', name, args, call.line, r)
+        return r
+
+    models = {p: m_printer(n) for p, n in printers.items()}
+    for r in RAW_OUT:
+        if r not in u.functions:
+            models[r] = m_raw(r)
+    for fn in GEN:
+        W = '%s:%d' % (CG, u.fn(fn).line)
+        base = '%s:%s' % (CG, fn)
+        cfg = {'models': models, 'opaque': ['count'], 'cut': {f: h_rec for f in REC if f not in printers},
+               'globals': {name: Sym(label, t) for (name, label, t) in globs}}
+        it = Interp(P, u, cfg)
+
+        def mk(ctx):
+            for (vid, label, t) in statics:
+                ctx.globals['static:' + vid] = Sym(label, t)
+            o = Obj('Node', lazy=True, label='node')
+            ctx.c18_root = o
+            return [o]
+
+        def is_bad(o):
+            return o[1] == '@emit' and not (o[2] and isinstance(o[2][0], str) and o[2][0].split()[:1] == ['.loc'])
+        try:
+            paths, partial = _explore_budget(it, u, fn, mk, is_bad)
+        except (Unsupported, AnalysisBroken) as e:
+            rep.undecided('R18.7', base + ':shape', 'cannot interpret %s up to its first output: %s' % (fn, e), where=W)
+            continue
+        n = nviol = 0
+        und = {}
+        for ctx, out in paths:
+            if out[0] != 'noreturn' or out[1] != '@emit':
+                continue     # no output of its own on this path (only sub-nodes, or nothing), or a diagnostic
+            n += 1
+            a = out[2]
+            tmpl = a[0] if a and isinstance(a[0], str) else None
+            words = tmpl.split() if tmpl else []
+            where = '%s:%d' % (CG, out[3])
+            facts = {'path': ctx.trail[-6:], 'first_output': repr(a)}
+            shown = (tmpl or repr(a)).strip()
+            if words[:1] != ['.loc']:
+                pins = _position_pins(it, ctx, ptr_state)
+                has_line = 'line_no' in pins
+                has_file = any(k == 'file' or k.startswith('file.') for k in pins)
+                facts['skipped_when'] = pins
+                if has_line and has_file:
+                    und[base + ':loc-first/position-cache'] = (
+                        '%s omits the .loc directive when both the line (%s) and the file (%s) of the node\'s token equal remembered values; '
+                        'whether what is remembered is always the position announced last is not decided by this check' % (
+                            fn, pins['line_no'], ', '.join(v for k, v in sorted(pins.items()) if k.startswith('file'))), where)
+                    continue
+                nviol += 1
+                if pins:
+                    miss = 'file' if has_line else ('line' if has_file else 'file and line')
+                    rep.ob('R18.7', base + ':loc-first/skipped-on-equal-' + '+'.join(sorted(pins)), False,
+                           '%s can emit `%s` with no .loc directive before it, on a path taken when %s: the condition says nothing about the %s of the node\'s token, '
+                           'so a node whose token differs in %s from the position announced last has its instructions attributed to that earlier position' % (
+                               fn, shown, ' and '.join('node->tok->%s equals %s' % (k.replace('.', '->'), v) for k, v in sorted(pins.items())), miss, miss),
+                           where=where, facts=facts)
+                else:
+                    rep.ob('R18.7', base + ':loc-first', False,
+                           '%s can emit `%s` before any .loc directive: the instructions of this node are attributed to the line of the previous node' % (fn, shown), where=where, facts=facts)
+                continue
+            rep.ob('R18.7', base + ':loc-first', True, '', where=W)
+            names = [getattr(x, 'name', repr(x)) for x in a[1:]]
+            ok = names == ['node.tok.file.file_no', 'node.tok.line_no'] and words[1:] == ['%d', '%d']
+            rep.ob('R18.7', base + ':loc-operands', ok,
+                   '%s emits `%s` with (%s): expected the file number of the node\'s token and its line number, in this order' % (fn, shown, ', '.join(names)), where=where, facts=facts)
+        for key, (why, where) in sorted(und.items()):
+            rep.undecided('R18.7', key, why, where=where)
+        if partial and not nviol:
+            rep.undecided('R18.7', base + ':exploration-capped', 'the paths of %s to its first output were not all explored (%s)' % (fn, partial), where=W)
+        if n == 0:
+            rep.undecided('R18.7', base + ':no-output', '%s never reaches an output call' % fn, where=W)
